@@ -283,7 +283,9 @@ def integer_kernel_basis(cx):
         w = ex.fresh(I, 'argmin'); st.pc += [0 <= w, w < z3.Length(s.t)]
         return VI(s.t[w])
     cx.call('min', min_, trusted='min(seq, key=...): an element of the sequence')
-    cx.call('gcd', lambda ex, st, r, a, kw: VI(ex.fresh(I, 'gcd')))
+    def gcd(ex, st, r, a, kw):
+        g = ex.fresh(I, 'gcd'); st.pc += [g >= 0, z3.Implies(z3.Or(toint(a[0]) != 0, toint(a[1]) != 0), g >= 1)]; return VI(g)
+    cx.call('gcd', gcd, trusted='math.gcd: non-negative, positive unless both arguments are 0')
 
     def store(ex, st, o, k, v):
         if o.kind != 'mat': return False
